@@ -431,6 +431,11 @@ func (handle *writeTxnHandle) Commit() ReadTxn {
 		table.meta.released()
 		table.locked = false
 	}
+	// Tables registered after this transaction was created exist only in
+	// the current root. Carry them over so they are not dropped.
+	if len(currentRoot) > len(root) {
+		root = append(root, currentRoot[len(root):]...)
+	}
 	txn.tableEntries = nil
 
 	// Commit the transaction to build the new root tree and then
